@@ -1123,7 +1123,7 @@ func TestVerifC09_EnumInproc(t *testing.T) {
 			for k := 1; ; k++ {
 				c := c09Clone(base)
 				c.Script = []c09Step{{Kind: "inproc", CrashAt: k, MidFrac: 0.5}}
-				c.CheapFinal = k%4 != 0
+				c.CheapFinal = k%5 != 0
 				if first == "recover-then-inproc" {
 					// the crash state is first met by another crashing cycle
 					c.Script = append(c.Script, c09Step{Kind: "inproc", CrashAt: 1 + k%3, MidFrac: 0.5, Late: true})
@@ -1180,7 +1180,7 @@ func TestVerifC09_EnumKill(t *testing.T) {
 		for k := 1; ; k++ {
 			c := c09Clone(base)
 			c.Script = []c09Step{{Kind: "cycle", Plan: []c09Plan{{CrashAt: k, MidFrac: 0.5}}}}
-			c.CheapFinal = verifkit.Tier() == "quick" && k%3 != 0
+			c.CheapFinal = verifkit.Tier() == "quick" && k%4 != 0
 			w, err := newC09World(c, db)
 			if err != nil {
 				t.Fatalf("C09 harness: %v", err)
